@@ -321,6 +321,20 @@ def _attr_of(ff: FuncFlow, e: ast.AST, param: str) -> Optional[str]:
 
 def _check_state_ctor(check, ff: FuncFlow, fi: FuncInfo, oc: sk.OptCall, rule: str, advisory: bool):
   """ServerState(params, opt_state, ...) receives the optimizer results in field order."""
+  # every result of the optimizer call must flow into the returned state (constructor, .replace(...), dict ...)
+  for res, what in ((oc.res_params, 'new params'), (oc.res_opt, 'new optimizer state')):
+    if not isinstance(res, ast.Name) or res.id == '_':
+      continue
+    carried = False
+    for _, rv in ff.returns():
+      if rv is None:
+        continue
+      for x in ff.deep_walk(rv):
+        if isinstance(x, ast.Name) and sk.derives_from_result(ff, x, res):
+          carried = True
+    check.ob(rule + '.state-carries', fi, f'{what} ({res.id}) in the returned state', carried,
+             f'the {what} produced by the server optimizer must be part of the state that is returned: otherwise stateful '
+             f'server optimizers (momentum, Adam) restart every round', node=oc.call, advisory=advisory)
   for _, rv in ff.returns():
     if rv is None:
       continue
